@@ -46,15 +46,15 @@ func must(err error, what string) {
 }
 
 type runner struct {
-	root   string
-	rounds int
-	ctx    context.Context
-	rng    *rand.Rand
-	n      int // running step number
-	app    *sql.DB
-	nextID int64
-	db     *litestream.DB
-	acked  []uint64 // replica TXIDs acknowledged by upload/syncandwait
+	root     string
+	rounds   int
+	ctx      context.Context
+	rng      *rand.Rand
+	n        int // running step number
+	app      *sql.DB
+	nextID   int64
+	db       *litestream.DB
+	acked    []uint64 // replica TXIDs acknowledged by upload/syncandwait
 	noInsert bool
 }
 
@@ -818,7 +818,7 @@ func Main(args []string) int {
 	scenarios := map[string]func(){
 		"basic": r.scBasic, "compact": r.scCompact, "restore": r.scRestore,
 		"follow": r.scFollow, "behind": r.scBehind, "reopen": r.scReopen, "restorev3": r.scRestoreV3,
-		"pinned": r.scPinned, "ckptbusy": r.scCkptBusy,
+		"pinned": r.scPinned, "ckptbusy": r.scCkptBusy, "restoreside": r.scRestoreSide,
 	}
 	r.noInsert = *noInsert
 
